@@ -87,7 +87,12 @@ CLAIMED = {
          "carry no-failing-input-found."),
    design="§3/C08"),
  "C07": dict(
-   text=("Partial claim — a thin slice: the one clause of the statement that is decided by hand-written run-time code. Verus discharges, "
+   text=("Partial claim — two thin slices. (1) Compile time, 'the fallback of the innermost blueprint whose prefix/domain covers the request "
+         "runs': on the real text of pavexc's ScopeBasedFallbackTree::find_fallback_id (a labelled descent over the fallback tree, rule "
+         "N21) Verus discharges that the fallback chosen for a route is the one of a node whose scope encloses the route's scope and none "
+         "of whose children does — the innermost registered fallback enclosing the route, never a sibling's — for every tree of the shape "
+         "ScopeBasedFallbackTree::new builds (a precondition: children come after their parent), with termination and index safety. "
+         "(2) Run time, the one clause of the statement that is decided by hand-written run-time code. Verus discharges, "
          "on the real text of pavex::router::default_fallback and AllowedMethods::allow_header_value, that the default fallback answers "
          "405 with an Allow header listing exactly the methods registered for the matched path when there is at least one, and 404 "
          "without an Allow header otherwise (no method registered, or AllowedMethods::All). The header text itself "
@@ -96,7 +101,9 @@ CLAIMED = {
    note=("NOT decided — and this is most of C07: WHICH handler or fallback a request reaches (domain guard, path pattern with nesting "
          "prefixes, method guard, innermost covering blueprint) and that the server starts without panicking are properties of the router "
          "that pavexc GENERATES (matchit tables emitted by codegen/router.rs), i.e. of the emitted program; no contract on pavexc or on the "
-         "runtime reaches them (DESIGN §1.3). Response is modelled by status code + Allow header only."),
+         "runtime reaches them (DESIGN §1.3). Response is modelled by status code + Allow header only. For slice (1): the shape of the tree "
+         "(ScopeBasedFallbackTree::new, iterator closures) is a precondition, is_descendant_of is an uninterpreted relation, and how the "
+         "chosen fallback reaches the emitted router (assign_fallbacks over matchit, codegen) is not decided."),
    design="§3/C07"),
  "C09": dict(
    text=("Partial claim — the 'fails atomically' half, on the one function that decides it. The verbatim text of pavexc_cli::generate "
